@@ -52,13 +52,15 @@ func checks() map[string]CheckDef {
 			{Pkg: "internal/zzverif/c04", Func: "HarnessTips", Quick: [][]int64{{3}}, Thorough: [][]int64{{4}, {5}}, Labels: []string{"C04/tips-exact-set", "C04/tip-longest", "C04/tips-only-stored"}},
 			{Pkg: "internal/zzverif/c04", Func: "HarnessAncestors", Quick: [][]int64{{3}, {4}}, Thorough: [][]int64{{5}}, Labels: []string{"C04/ancestors-error-iff-not-descendant", "C04/ancestors-exact-path"}},
 			{Pkg: "internal/zzverif/c04", Func: "HarnessByHeight", Quick: [][]int64{{3}, {4}}, Thorough: [][]int64{{5}, {6}}, Labels: []string{"C04/by-height-answers", "C04/by-height-only-stored", "C04/by-height-only-from-window", "C04/by-height-no-duplicates", "C04/by-height-all-longest-in-window"}},
-			{Pkg: "internal/zzverif/c04", Func: "HarnessCommonAncestor", Quick: [][]int64{{3, 1}, {3, 2}, {4, 2}}, Thorough: [][]int64{{4, 2}, {3, 3}}, Labels: []string{"C04/common-ancestor-unknown-hash-is-an-error", "C04/common-ancestor-found-iff-one-exists", "C04/common-ancestor-is-the-highest-common-one"}},
+			{Pkg: "internal/zzverif/c04", Func: "HarnessCommonAncestor", Quick: [][]int64{{3, 1}, {3, 2}, {4, 2}}, Thorough: [][]int64{{3, 3}, {5, 2}, {5, 3}}, Labels: []string{"C04/common-ancestor-unknown-hash-is-an-error", "C04/common-ancestor-found-iff-one-exists", "C04/common-ancestor-is-the-highest-common-one"}},
+			{Pkg: "internal/zzverif/c04", Func: "HarnessCommonAncestorFork", Thorough: [][]int64{{3}},
+				Labels: []string{"C04/common-ancestor-found-iff-one-exists", "C04/common-ancestor-is-the-highest-common-one"}},
 			{Pkg: "internal/zzverif/c04", Func: "HarnessFreshAnswers", Quick: [][]int64{{1, 0}, {1, 1}, {1, 2}, {1, 3}, {1, 4}, {1, 5}, {1, 6}, {1, 7}, {1, 8}, {2, 5}, {2, 7}}, Thorough: [][]int64{{2, 0}, {2, 1}, {2, 2}, {2, 3}, {2, 4}, {2, 5}, {2, 6}, {2, 7}, {2, 8}, {3, 5}, {3, 7}},
 				Labels: []string{"C04/read-routes-registered", "C04/answer-after-ingestion-equals-a-fresh-process"}},
 			{Pkg: "transports/http/endpoints/api/headers", Func: "HarnessMapHeader", Quick: [][]int64{{2}}, Thorough: [][]int64{{3}}, Labels: []string{"C04/header-response-carries-the-stored-fields", "C04/state-response-carries-the-stored-fields", "C04/list-response-keeps-length-and-order"}},
 			{Pkg: "transports/http/endpoints/api/tips", Func: "HarnessMapTip", Quick: [][]int64{{2}}, Thorough: [][]int64{{3}}, Labels: []string{"C04/tip-response-carries-the-stored-fields", "C04/tips-response-keeps-length-and-order"}},
 		},
-		Bounds:  []string{"arbitrary INV-H store of k rows (quick k<=4, thorough k<=5), every column symbolic; query hash an arbitrary string (by-hash/state) or any ordered pair of distinct stored headers (ancestors); by-height: any height and count with |.| < 2^40; common-ancestor: every list of n stored-or-unknown hashes (quick k=3 n<=2, thorough k=4 n=2 and k=3 n=3; at k=5 the model meets an order-dependent read of an unordered CTE result and reports unsupported, so k=5 is not registered), on stores without a parent stored after its child", "no state outside the store: for each of the 9 routes under /api/v1/chain (enumerated from the routing table; auth off) one arbitrary request, then one arbitrary new header ingested through the same process, then the same request again - its answer (status and documents) equals that of a freshly assembled application over the same database; k=1 for every route and k=2 for the merkle-root listing and tips (quick), k=2 for every route and k=3 for those two (thorough)"},
+		Bounds:  []string{"arbitrary INV-H store of k rows (quick k<=4, thorough k<=5), every column symbolic; query hash an arbitrary string (by-hash/state) or any ordered pair of distinct stored headers (ancestors); by-height: any height and count with |.| < 2^40; common-ancestor: every list of n stored-or-unknown hashes (quick k<=4 n<=2; thorough k=3 n=3, k=5 n<=3, and the two-branch shape of 5 rows with n=3), on stores without a parent stored after its child", "no state outside the store: for each of the 9 routes under /api/v1/chain (enumerated from the routing table; auth off) one arbitrary request, then one arbitrary new header ingested through the same process, then the same request again - its answer (status and documents) equals that of a freshly assembled application over the same database; k=1 for every route and k=2 for the merkle-root listing and tips (quick), k=2 for every route and k=3 for those two (thorough)"},
 		Outside: []string{"JSON encoding of the response structs (field names / tags); the struct-level mapping is checked for every header with a timestamp within uint32 seconds", "PostgreSQL", "tips: the row order of the UNION is unspecified, the result is compared as a set"},
 		Stubs:   []string{"zerolog calls have no effect", "sqlx over the sqlm model"},
 	})
@@ -105,11 +107,13 @@ func checks() map[string]CheckDef {
 		Runs: []HRun{
 			{Pkg: "internal/zzverif/c05", Func: "HarnessFaultyAdd", Quick: [][]int64{{2}, {3}}, Thorough: [][]int64{{3}, {4}},
 				Labels: []string{"C05/structurally-valid-after-fault", "C05/acknowledged-headers-unaltered", "C05/redelivery-not-stuck", "C05/redelivery-reaches-uninterrupted-state", "C05/failed-store-reports-error-and-no-event"}},
+			{Pkg: "database", Func: "HarnessRestart", Quick: [][]int64{{0}, {1}, {3}}, Thorough: [][]int64{{4}, {5}},
+				Labels: []string{"C05/genesis-row-wellformed", "C05/restart-succeeds", "C05/empty-store-gets-exactly-genesis", "C05/restart-changes-nothing"}},
 			{Pkg: "internal/zzverif/c05", Func: "HarnessFaultyReorg", Quick: [][]int64{{4}}, Thorough: [][]int64{{5}},
 				Labels: []string{"C05/structurally-valid-after-fault", "C05/redelivery-reaches-uninterrupted-state"}},
 		},
 		Bounds:  []string{"the slice 'submitted header is new and its parent is a stored STALE header' (the submissions that can reorganise) one row further: k=4 quick, k=5 thorough", "one ingestion step from an arbitrary INV-H store of k rows (quick k<=3, thorough k<=4) with ONE fault: kill right after, or failure of, the j-th write-transaction commit, j in 1..3 (every write boundary of an Add incl. both state updates of a reorganisation and the insert); then restart (new connection) and redelivery of the same header, compared row by row with the uninterrupted run from the same store", "bits of the submitted header from a 3-entry menu; stored works arbitrary positive"},
-		Outside: []string{"torn writes inside one SQLite transaction (SQLite's atomicity is trusted)", "migrations at restart (golang-migrate)", "several faults in one history; redelivery of a whole interrupted branch in another order", "genesis insertion / import at restart (see C17 kernels)"},
+		Outside: []string{"torn writes inside one SQLite transaction (SQLite's atomicity is trusted)", "migrations at restart (golang-migrate); the genesis insertion that every start performs IS checked (HarnessRestart: on any table of k rows with distinct hashes it changes nothing, on an empty table it creates exactly the genesis row)", "several faults in one history; redelivery of a whole interrupted branch in another order", "genesis insertion / import at restart (see C17 kernels)"},
 		Stubs:   []string{"commit fault injection: symbolically a counter in the sqlx model; natively (witness and counterexample replays) a database/sql driver wrapper around go-sqlite3 that fails or panics at the chosen commit"},
 	})
 	add(CheckDef{
